@@ -93,6 +93,10 @@ func init() {
 				{Harness: "annotations.ZZC15PackageOnly24", Desc: "@packageonly: recognition and allow-list (declaring package first) vs reference", Bounds: map[string]interface{}{"text_bytes": 24, "list_items": "<= 5"}},
 				{Harness: "ignore.ZZC15Ignore18", Desc: "@ignore: recognition and upper-cased code list vs reference", Bounds: map[string]interface{}{"text_bytes": 18, "list_items": "<= 5"}},
 				{Harness: "zzverif/zzh.ZZC15bAttachment", Desc: "attachment sites: a comment (6 annotation keywords, plain, 5 near-misses) at any two of 12 sites of a file (doc of type spec / type group / func / method / named field of an @immutable struct / field of another struct / embedded field / var / const, trailing comment, comment in a body, doc of a local type; plus a block-comment doc): annotations are produced exactly at the effective sites", Bounds: map[string]interface{}{"sites": 14, "non_plain_comments": "<= 2", "alternatives": 17}},
+				{Harness: "zzverif/zzh.ZZC15bAttachment3", Tier: "thorough", Desc: "attachment sites with any three non-plain comments at a time", Bounds: map[string]interface{}{"non_plain_comments": "<= 3"}},
+				{Harness: "annotations.ZZC15Simple28", Tier: "thorough", Desc: "@immutable/@testonly/@mutable on 28-byte comments", Bounds: map[string]interface{}{"text_bytes": 28}, Setup: func(ex *eng.Explorer, tier string) { ex.TimeoutMS = 300000 }},
+				{Harness: "annotations.ZZC15Constructor30", Tier: "thorough", Desc: "@constructor on 30-byte comments", Bounds: map[string]interface{}{"text_bytes": 30, "list_items": "<= 7"}, Setup: func(ex *eng.Explorer, tier string) { ex.TimeoutMS = 300000; ex.MaxSplit = 7 }},
+				{Harness: "annotations.ZZC15Implements30", Tier: "thorough", Desc: "@implements on 30-byte comments", Bounds: map[string]interface{}{"text_bytes": 30}, Setup: func(ex *eng.Explorer, tier string) { ex.TimeoutMS = 300000 }},
 				{Harness: "zzverif/zzh.ZZC15bMutablePairs", Desc: "docs of two structs and of their same-named fields arbitrary at once (17 spellings each): @mutable belongs to the field of the struct whose own doc carries @immutable", Bounds: map[string]interface{}{"sites": 4, "alternatives": 17}},
 				{Harness: "annotations.ZZC15Implements24", Desc: "@implements: recognition, pointer flag, qualifier, name vs reference", Bounds: map[string]interface{}{"text_bytes": 24}},
 			},
@@ -177,6 +181,7 @@ func init() {
 			ID: "C07",
 			Runs: []Run{
 				{Harness: "zzverif/zzh.ZZC07Scopes", Desc: "10 placements of an @ignore comment (before package clause, alone before func / type declaration, alone before a multi-line statement, alone before a struct field, alone before a local var declaration, trailing a statement, trailing an if-header, last in a body, trailing a struct field), any <= 2 of them active; query = ANY byte position of the file x 7 codes: Contains == documented extent", Bounds: map[string]interface{}{"skeleton": "c07Src", "placements": 13, "active_markers": "<= 2", "query_position": "every offset 0..len+2 (symbolic)"}},
+				{Harness: "zzverif/zzh.ZZC07Scopes3", Tier: "thorough", Desc: "the same with any three placements active at a time", Bounds: map[string]interface{}{"active_markers": "<= 3"}},
 				{Harness: "zzverif/zzh.ZZC07Spellings", Desc: "declaration placement with 9 code-list spellings (single, several + prose, category, ALL lower-case, unknown + trailing comma, other category, near-miss keywords)", Bounds: map[string]interface{}{"spellings": 9}},
 				{Harness: "zzverif/zzh.ZZC07SpellingsStmt", Desc: "statement placement with the 9 spellings", Bounds: map[string]interface{}{"spellings": 9}},
 				{Harness: "zzverif/zzh.ZZC07RereportField", Desc: "re-reporting when the first uses of the once-per-file type are a struct field and a parameter (trailing markers, 4x3 spellings)", Bounds: map[string]interface{}{"holes": 2}},
@@ -189,6 +194,7 @@ func init() {
 			ID: "C08",
 			Runs: []Run{
 				{Harness: "zzverif/zzh.ZZC08Text", Desc: "exclude-checks as raw text (any case/blanks/empty items): ReadIgnoreAnnotations + IgnoreSet.Contains drop code c at any position iff an item names ALL, c's category or c", Bounds: map[string]interface{}{"text_bytes": 9, "commas": 2, "codes": 7}},
+				{Harness: "zzverif/zzh.ZZC08AllCheckers3", Tier: "thorough", Desc: "the same with up to three tokens", Bounds: map[string]interface{}{"tokens": "0..3 of 14"}},
 				{Harness: "zzverif/zzh.ZZC08AllCheckers", Desc: "two-package program producing all 13 IMM/CTOR/TONL/PKGO codes (15 diagnostics, one unrelated @ignore marker in the middle); exclude-checks = 0..2 tokens from {ALL, 5 categories, 6 codes, junk, prefix look-alike}: reported set == unrestricted set minus matching codes, for report-time (IMM, CTOR) and detection-time (TONL, PKGO) filters alike", Bounds: map[string]interface{}{"tokens": "0..2 of 14", "program": "allSrcD + allSrcU"}},
 			},
 			Outside:     []string{"flag/env plumbing of the value (C18)", "IMPL codes in the L1 harness (covered by the text harness and C05)", "more than two tokens at once in the L1 harness"},
@@ -235,6 +241,7 @@ func init() {
 			Runs: []Run{
 				{Harness: "reporting.ZZC17Report", Desc: "the single reporter for an arbitrary violation (16 documented codes + unknown, any 4-byte message, any position), one marker (8 tokens, any range) and one global token (5): Report is called iff the violation's OWN code is not suppressed at its OWN position, at that position, with a message starting error: [that code]", Bounds: map[string]interface{}{"codes": 17, "marker_tokens": 8, "global_tokens": 5, "range": "[1,2^31)"}},
 				{Harness: "zzverif/zzh.ZZC17WellFormed", Desc: "all-codes program, one analyzer at a time, with readable sources: [CODE] prefix with a documented code of the analyzer's category, no second code, located in the analysed package's file on the offending line, excerpt shows that line, help link = category page (frozen table). Concrete program: this harness is executed by the interpreter and natively, no symbolic input", Bounds: map[string]interface{}{"program": "allSrcD + allSrcU", "codes": 13}},
+				{Harness: "zzverif/zzh.ZZC17Inline3", Tier: "thorough", Desc: "inline markers on any three lines at a time", Bounds: map[string]interface{}{"markers": "<= 3 of 15"}},
 				{Harness: "zzverif/zzh.ZZC17Inline", Desc: "inline '// @ignore CODE' with the displayed code on any <= 2 of the 15 diagnostic lines (incl. a continuation line of a multi-line call and the last line of the file): exactly those diagnostics disappear", Bounds: map[string]interface{}{"markers": "<= 2 of 15"}},
 			},
 			Outside:     []string{"process exit status and -json rendering (x/tools multichecker)", "IMPL codes (see C05)", "real-world corpora"},
